@@ -25,10 +25,13 @@ Counts == {1, 2, 4}
 \* the table's never decides (SevValidate only extracts from the attestation when none is supplied).
 SnpRows == {r \in [tech : {"snp"}, listed : SUBSET Counts, svsm : BOOLEAN, short2 : BOOLEAN,
                    meas : {"m1", "m2", "m4", "ms", "n2", "un", "short"}, req : {0, 1, 2, 4, 8},
-                   digest : {"none", "eq", "diff"},
+                   \* expected firmware digest: not given, equal, different, or given while the endorsement
+                   \* carries no digest at all ("absent": nothing endorsed equals the expectation)
+                   digest : {"none", "eq", "diff", "absent"},
                    entry : {"SNP", "EndorsementProto", "SNPFunc", "SevValidate", "cli_sev"},
                    table : {"none", "other"}] :
-              r.table = "other" => r.entry \in {"SevValidate", "cli_sev"} /\ r.digest = "none"}
+              /\ (r.table = "other" => r.entry \in {"SevValidate", "cli_sev"} /\ r.digest = "none")
+              /\ (r.digest = "absent" => r.entry \in {"EndorsementProto", "SNPFunc"})}
 TdxIds == {"d0", "r16", "r16e", "r32"}
 RamOf(id) == IF id = "d0" THEN 0 ELSE IF id = "r32" THEN 32 ELSE 16
 \* base: the caller's base policy; "mixed" = it already carries an MRTD allow-list made of one endorsed
@@ -68,7 +71,7 @@ SevValidate(r, req) ==
   /\ VerifySNP(r, req)
 
 SnpAccept(r) ==
-  LET digestOK == r.digest # "diff" IN
+  LET digestOK == r.digest \notin {"diff", "absent"} IN
   CASE r.entry = "SNP" -> VerifySNP(r, r.req)
     [] r.entry = "EndorsementProto" -> digestOK /\ VerifySNP(r, r.req)
     [] r.entry = "SNPFunc" -> r.meas # "short" /\ digestOK /\ VerifySNP(r, r.req)
@@ -99,7 +102,7 @@ C02_ForNamedConfig ==
   result = "accept" =>
     IF row.tech = "snp" THEN row.req # 0 => row.meas \in SnpListedFor(row, row.req)
     ELSE row.ram # 0 => row.mrtd \in TdxListedFor(row, row.ram)
-C02_DigestMatches == result = "accept" /\ DigestApplies(row) => row.digest # "diff"
+C02_DigestMatches == result = "accept" /\ DigestApplies(row) => row.digest \notin {"diff", "absent"}
 C02_UnlistedConfigRejected ==
   result # "none" =>
     IF row.tech = "snp" THEN (row.req # 0 /\ SnpListedFor(row, row.req) = {} => result = "reject")
